@@ -6,6 +6,9 @@ from pystog import StoG
 import stogcases as sc
 
 LEAN = "PystogVerif.Props.C11"
+# theorems about the code generated from stog.py by tools/translate_stog.py (built when these methods translate)
+LEAN_GEN = "PystogVerif.Props.C11Gen"
+STOG_METHODS = ['apply_scales_and_offset', 'add_dataset']
 ENTRIES = []
 RULE = ("1-4 datasets of random kind (S, Q[S-1], F_K, DCS), per-dataset Qmin/Qmax (60%), Y scale/offset (55%), Q offset (50%, "
         "multiples and non-multiples of 0.01, positive and negative), global Qmin/Qmax window (50% each); after every add_dataset both "
